@@ -164,7 +164,7 @@ func (c19) Exec(sc *sim.Scenario, env *sim.Env) *sim.Violation {
 		ops = append(ops, op)
 		total += opSize(op)
 	}
-	env.SetWatchdog(uint64(len(ops)+1) * uint64(len(caps)+2) * 4000)
+	env.SetWatchdog(uint64(len(ops)+1) * uint64(len(caps)+2) * 400000)
 
 	for _, c := range caps {
 		if c < 0 {
@@ -173,6 +173,16 @@ func (c19) Exec(sc *sim.Scenario, env *sim.Env) *sim.Violation {
 		capacity := int(c)
 		spare := (sc.Seed>>7+uint64(capacity))&1 == 1
 		target, guard := mkTarget(capacity, spare)
+		// in place: the target is a window at the start of a larger image, and a block that goes
+		// through Clone is emitted straight into that image from the first free byte on (past
+		// the end of the window if the block is too long: the Append must still refuse it)
+		inplace := (sc.Seed>>9+uint64(capacity))&3 == 0
+		var image []byte
+		if inplace {
+			image = make([]byte, capacity+total+64)
+			target, guard = image[:capacity], nil
+			st.Probe("clone_block_in_place")
+		}
 		for j := range target {
 			target[j] = 0xA5 ^ byte(j)
 		}
@@ -189,7 +199,11 @@ func (c19) Exec(sc *sim.Scenario, env *sim.Env) *sim.Violation {
 				}
 				eSnap = snapEmitter(e)
 				var c *asm.Emitter
-				if p, pv := sim.RecoverLib(func() { c = e.Clone(make([]byte, total+16)) }); p || c == nil {
+				blockTarget := make([]byte, total+16)
+				if inplace {
+					blockTarget = image[e.Len():]
+				}
+				if p, pv := sim.RecoverLib(func() { c = e.Clone(blockTarget) }); p || c == nil {
 					return &sim.Violation{Oracle: "clone_panic", Step: i, Msg: sim.PanicString(pv)}
 				}
 				mSnap = m.clone()
@@ -454,6 +468,11 @@ func (c19) Exec(sc *sim.Scenario, env *sim.Env) *sim.Violation {
 				for n, v := range a.Labels {
 					if b.Labels[n] != v {
 						return &sim.Violation{Oracle: "twin_label", Step: half + i, Msg: fmt.Sprintf("after %s: label %s measuring=%#x real=%#x", op, n, v, b.Labels[n])}
+					}
+				}
+				for n, v := range b.Labels {
+					if av, ok := a.Labels[n]; !ok || av != v {
+						return &sim.Violation{Oracle: "twin_label", Step: half + i, Msg: fmt.Sprintf("after %s: label %s is at %#x in the real emitter; the Clone(nil) measuring emitter has it: %v (%#x)", op, n, v, ok, av)}
 					}
 				}
 			}
